@@ -6,7 +6,7 @@ import ast
 import re as _re
 from typing import Dict, List, Optional
 
-from ..core import Unrecognised, Slot, call_name, calls_in, dotted, facts, module_of, parent, qual, site, src, template, walk_local
+from ..core import clone, Unrecognised, Slot, call_name, calls_in, dotted, facts, module_of, parent, qual, site, src, template, walk_local
 from ..formulas import LANG, PropError, SPEC_TABLES, truth_table
 
 EXPLANATION = (
@@ -51,7 +51,7 @@ def rule_d1(ctx):
 
         import copy
 
-        expr = Inline().visit(copy.deepcopy(result))
+        expr = Inline().visit(clone(result))
         names = dict(names)
         names["__A"] = "A"
         names["__B"] = "B"
